@@ -253,6 +253,18 @@ def case_special(name):
                                          "merge: %d points remain, expected %d" % (len(s.points), exp))
                     jit = cc.copy(points=cc.points + 1e-7 * rng.uniform(-1, 1, cc.points.shape))
                     jit.merge_duplicate_points(decimals=4)
+                # duplicates that sit astride a rounding boundary (x = 0.125 +- 1e-16 with decimals=2): judged here with its own key
+                qa = fem.Rectangle(a=(0, 0), b=(0.125, 1), n=(2, 3))
+                qb = fem.Rectangle(a=(0.125, 0), b=(0.3, 1), n=(2, 3))
+                qa = qa.copy(points=qa.points - np.array([2e-16, 0.0]) * (qa.points[:, :1] > 0.1))
+                qb = qb.copy(points=qb.points + np.array([2e-16, 0.0]) * (qb.points[:, :1] < 0.126))
+                cc2 = fem.mesh.concatenate([qa, qb])
+                mm = fem.mesh.merge_duplicate_points(cc2, decimals=2)  # module-level function: not judged by the method hook
+                from scipy.spatial import cKDTree
+                dmin = float(cKDTree(mm.points).query(mm.points, k=2)[0][:, 1].min())
+                run.compare("mesh.merge_duplicate_points", "tool=merge_duplicate_points clause=separation input=duplicates-astride-a-rounding-boundary",
+                            0.0 if dmin >= 0.01 * (1 - 1e-9) else 1.0, 0.5,
+                            "merge(decimals=2): two points %.1e apart (on either side of x = 0.125) are left unmerged" % dmin, unit="merge:rounding-boundary")
                 # joining higher-order blocks: shared mid-edge / mid-face nodes must merge as well
                 for ho in (fem.Rectangle(n=3).add_midpoints_edges(), fem.Rectangle(n=3).add_midpoints_edges().add_midpoints_faces(),
                            fem.Cube(n=3).add_midpoints_edges(), fem.Cube(n=3).add_midpoints_edges().add_midpoints_faces().add_midpoints_volumes(),
